@@ -78,6 +78,11 @@ func startGetTraversal(
 		NodeFilter: s.TraversalNodeFilter,
 	})
 	nodes, err := s.TraversalStartingNodes()
+	if err != nil {
+		// The callers return on this error without ever stopping the operation.
+		op.Stop()
+		return
+	}
 	op.AddNodes(nodes)
 	return
 }
